@@ -14,11 +14,11 @@ import (
 )
 
 func sub(ty, slot int, o evt.SubOpts) bp.Op { return bp.Op{K: bp.Sub, Ty: ty, Slot: slot, O: o} }
-func unsub(ty, slot int) bp.Op                { return bp.Op{K: bp.Unsub, Ty: ty, Slot: slot} }
-func pub(ty int) bp.Op                        { return bp.Op{K: bp.Pub, Ty: ty} }
-func pubOdd(ty int) bp.Op                     { return bp.Op{K: bp.Pub, Ty: ty, Odd: true} }
-func clr(ty int) bp.Op                        { return bp.Op{K: bp.Clear, Ty: ty} }
-func cnt(ty int) bp.Op                        { return bp.Op{K: bp.Count, Ty: ty} }
+func unsub(ty, slot int) bp.Op              { return bp.Op{K: bp.Unsub, Ty: ty, Slot: slot} }
+func pub(ty int) bp.Op                      { return bp.Op{K: bp.Pub, Ty: ty} }
+func pubOdd(ty int) bp.Op                   { return bp.Op{K: bp.Pub, Ty: ty, Odd: true} }
+func clr(ty int) bp.Op                      { return bp.Op{K: bp.Clear, Ty: ty} }
+func cnt(ty int) bp.Op                      { return bp.Op{K: bp.Count, Ty: ty} }
 
 var (
 	plain  = evt.SubOpts{}
